@@ -329,8 +329,19 @@ class _check_value_base:
             )
 
 
+def _check_bound_types(value_min, value_max):
+    # a bound that is not a number (.type = int(value_min=int), value_max="a") would
+    # only fail later, as a TypeError from printing, formatting or comparing
+    for name, bound in (("value_min", value_min), ("value_max", value_max)):
+        if bound is not None and not isinstance(bound, (int, float)):
+            raise TypeError(
+                "%s must be a number, not %s" % (name, type(bound).__name__)
+            )
+
+
 class number_converters_base(_check_value_base):
     def __init__(self, value_min=None, value_max=None, allow_none=True):
+        _check_bound_types(value_min, value_max)
         if value_min is not None and value_max is not None:
             assert value_min <= value_max
         self.value_min = value_min
@@ -418,6 +429,7 @@ class numbers_converters_base(_check_value_base):
         allow_none_elements=False,
         allow_auto_elements=False,
     ):
+        _check_bound_types(value_min, value_max)
         assert size is None or (size_min is None and size_max is None)
         if size is not None:
             assert size > 0
